@@ -1,3 +1,38 @@
+import PicoProofs.EndToEnd
 import PicoProofs.Tie
-import PicoModel.WellTyped
-/- C12: theorems are added as the proof modules land -/
+/-
+C12 — protoc-gen-pico emits correct codecs for every supported schema.
+
+The model of the emitted code (`Gen2.encMsg`, `Gen2.decPass`: a deep embedding of `genFieldEncode` /
+`genFieldDecode` for ANY schema) satisfies C01–C03, C06, C08 for EVERY schema with
+`Schema.supported` — the theorems below quantify over the schema. PARTIAL: that this embedding is
+what the working-tree generator emits is established per run on an exhaustive shape schema plus
+sampled fresh schemas (generated, compiled, driven against the model and the reference), and
+"terminates / compiles / same descriptor ⇒ same source" are observed on those schemas (each
+generated twice): facts about a Go program outside the reach of a theorem.
+-/
+namespace Pico.Props
+open Pico Pico.Gen2
+
+/-- C01/C06 for every schema -/
+theorem C12_encode_all_schemas (S : Schema) (id : Nat) (v : Val) (h : wtMsg S false id v = true) :
+    marshal S id v = Spec.specEnc S id v := marshal_eq_spec S id v h
+
+/-- C02 for every supported schema -/
+theorem C12_decode_all_schemas (S : Schema) (hS : S.supported = true) (id : Nat) (data : Bytes) :
+    ∃ d m, unmarshal S id data (zeroMsg S id) = .ok (d, m) ∧
+      (d.err = none ↔ (Spec.specUnmarshal S id data (zeroMsg S id)).isSome) ∧
+      (d.err = none → Spec.specUnmarshal S id data (zeroMsg S id) = some m) :=
+  unmarshal_new_refines_spec S hS id data
+
+/-- C03/C08 for every supported schema -/
+theorem C12_roundtrip_all_schemas (S : Schema) (hS : S.ok) (id : Nat) (v : Val)
+    (hwt : wtMsg S true id v = true) (hsz : (Spec.specEnc S id v).length < 2 ^ 64) :
+    ∃ d, unmarshal S id (marshal S id v) (zeroMsg S id) = .ok (d, v) ∧ d.err = none :=
+  unmarshal_marshal S hS id v hwt hsz
+
+/-- the emitted Decode never crashes, for every schema whatsoever (supported or not) -/
+theorem C12_decode_total_all_schemas (S : Schema) (id : Nat) (data : Bytes) (m0 : Val) :
+    ∃ d m, unmarshal S id data m0 = .ok (d, m) := unmarshal_total S id data m0
+
+end Pico.Props
